@@ -107,7 +107,9 @@ class D(Driver):
         for i, st in enumerate(steps):
             try:
                 obj = self.SVG.fromstring(text)
-                cur, r, ok = self.apply(obj, st)
+                # a copying step is modelled by the in-place form on the freshly parsed object:
+                # "copying operations ... return what the in-place form produces on a copy"
+                cur, r, ok = self.apply(obj, (st[0], "inplace") if st[1] == "copy" else st)
                 if cur is None:
                     cur = obj
                 text = cur.tostring()
